@@ -109,7 +109,14 @@ def _cause(eng, p, x, name, U, T, gpg, D, K, th):
             return "role is delegated by the trusted metadata"
         ty = SubC(U, "signed", "type")
         if ("ne", name, ty) in facts or ("ne", ty, name) in facts:
-            return "declared type equals the role (C06)"
+            # only delegating metadata is subject to the type-for-role comparison: the path must
+            # hold the evidence that the signed part passed the delegating-metadata checker
+            from . import mentions
+
+            disc_ok = [ev for ev in flat(p) if ev[0] == "call" and ev[2] == CHECKER and ev[5][0] == "ok" and ev[3] and ev[3][0] != T and mentions(ev[3][0], SubC(U, "signed"))]
+            if disc_ok:
+                return "declared type equals the role (C06)"
+            return None
         if any(f[0] == "nottype" and f[1] == name for f in facts):
             return "delegation_name is a str"
         if any(f[0] in ("notin", "nottype") and f[1] == gpg for f in facts):
@@ -123,15 +130,23 @@ def _cause(eng, p, x, name, U, T, gpg, D, K, th):
                 return "untrusted metadata is a signed envelope"
             if ev[2] == VSIG and len(ev[3]) >= 4 and ev[3][0] == U and ev[3][1] == K and ev[3][2] == th:
                 return "signatures meet the named role's keys/threshold"
-    # an implicit error: explained iff some clause is not (yet) established on this path
-    if not st.holds(("type", name, frozenset(["str"]))):
+    # an implicit error: explained iff some clause is not (yet) established on this path and the
+    # error is about that clause's subject (when the raise conditions say what it is about)
+    from . import cond_roots
+
+    about = cond_roots(x)
+
+    def on(*subjects):
+        return not about or bool(about & set(subjects))
+
+    if not st.holds(("type", name, frozenset(["str"]))) and on(name):
         return "delegation_name is a str (implicit error on an invalid argument)"
-    if not (st.holds(("type", gpg, frozenset(["bool"]))) or any(f[0] == "in" and f[1] == gpg for f in facts)):
+    if not (st.holds(("type", gpg, frozenset(["bool"]))) or any(f[0] == "in" and f[1] == gpg for f in facts)) and on(gpg):
         return "gpg is a boolean (implicit error on an invalid argument)"
-    if not st.holds(("ok", CallT(CHECKER, [T]))):
+    if not st.holds(("ok", CallT(CHECKER, [T]))) and on(T):
         return "well-formedness of the trusted metadata (implicit error)"
-    if envelope(st, U):
+    if envelope(st, U) and on(U):
         return "untrusted metadata is a signed envelope (implicit error)"
-    if not st.holds(("has", D, name)):
+    if not st.holds(("has", D, name)) and (("nothas", D, name) in facts or ("nothas", D, name) in x.conds or (about and about <= {T, name})):
         return "role is delegated by the trusted metadata (implicit error)"
     return None
